@@ -99,7 +99,11 @@ impl Pool {
             eprintln!("HARNESS-ERROR: writer self-check failed for {}: {}", key, e);
             std::process::exit(2);
         }
-        let d = Arc::new(Doc::from_bytes(&key, family.name(), w.bytes, b""));
+        let mut bytes = w.bytes;
+        if *family == Family::SharedHeader {
+            families::shared_header_patch(&mut bytes);
+        }
+        let d = Arc::new(Doc::from_bytes(&key, family.name(), bytes, b""));
         if !d.inv.loadable {
             eprintln!("HARNESS-ERROR: generated document {} does not load", key);
             std::process::exit(2);
